@@ -191,21 +191,26 @@ def run_sylvester(ctx):
         data = dict(n=cfg['n'], spectrum=cfg['t'], repeat=cfg['r'], G=cfg['G'])
         ctx.case(('sqrtm', cfg['n'], repr(cfg['t']), repr(cfg['c1']), repr(cfg['c2']), repr(cfg['G']), cfg['r']))
         try:
-            for batched in (False, True):
-                At = torch.tensor(A if not batched else np.stack([A, A]), dtype=torch.float64, requires_grad=True)
+            # batch modes: single; the same matrix twice; a batch that also holds a SINGULAR matrix (diag(0,1,..,n-1): an exactly zero
+            # eigenvalue, where the backward takes its guard branch) before / after the differentiable one - the gradient of the
+            # differentiable element must not depend on what else is in the batch
+            D0 = np.diag(np.arange(cfg['n'], dtype=float))
+            for batched, stack, pos in ((False, None, 0), (True, [A, A], 1), (True, [D0, A], 1), (True, [A, D0], 0)):
+                At = torch.tensor(A if not batched else np.stack(stack), dtype=torch.float64, requires_grad=True)
                 out = PSDMatrixSqrtm.apply(At) if cfg['r'] == 1 else _PSDMatrixSqrtmRepeat.apply(At, 2)
                 got = out.detach().numpy()
-                if core.gt(np.abs((got if not batched else got[1]) - root).max(), 1e-9):
+                if core.gt(np.abs((got if not batched else got[pos]) - root).max(), 1e-9):
                     ctx.violation('C04:PSDMatrixSqrtm:forward', 'matrix root differs from the exact root (repeat=%d)' % cfg['r'], data)
                     break
                 Gt = torch.tensor(G)
-                loss = (out * Gt.T).sum() if not batched else (out[1] * Gt.T).sum() + 0 * out[0].sum()
+                loss = (out * Gt.T).sum() if not batched else (out[pos] * Gt.T).sum() + 0 * out[1 - pos].sum()
                 loss.backward()
-                gr = At.grad.numpy() if not batched else At.grad.numpy()[1]
+                gr = At.grad.numpy() if not batched else At.grad.numpy()[pos]
                 ctx.evaluations += 1
                 if core.gt(np.abs(gr - X).max(), 1e-8):
                     kind = 'degenerate' if len(set(map(tuple, cfg['t']))) < len(cfg['t']) else 'generic'
-                    ctx.violation('C04:PSDMatrixSqrtm:backward:%s' % kind, 'backward of the matrix root (repeat=%d, %s spectrum%s) differs from the solution of the Sylvester equation' % (cfg['r'], kind, ', batched' if batched else ''), dict(data, expected=X.tolist(), got=gr.tolist()))
+                    mode = '' if not batched else (', batched with itself' if stack[0] is stack[1] else ', batched with a singular matrix')
+                    ctx.violation('C04:PSDMatrixSqrtm:backward:%s%s' % (kind, ':singular-neighbour' if 'singular' in mode else ''), 'backward of the matrix root (repeat=%d, %s spectrum%s) differs from the solution of the Sylvester equation' % (cfg['r'], kind, mode), dict(data, expected=X.tolist(), got=gr.tolist()))
                     break
             # Pade matrix logarithm at the scalar instances A = c I (all roots equal): log is analytic with d log(A)[H] = H / c there, so the
             # gradient of <G, logm(A)> is exactly G / c (Sylvester.tla, LogScalar); the forward value is log(c) I
